@@ -836,9 +836,73 @@ run_hist (kase const &k)
   return "{\"pulls\":[" + pulls + "],\"stacks_modified\":" + (modified ? "true" : "false") + "}";
 }
 
+// The scanner alone, on exactly the given bytes (no terminator after them).
+static std::string
+run_lex (kase const &k)
+{
+  static std::map <int, char const *> const names = {
+    {TOK_LPAREN, "LPAREN"}, {TOK_RPAREN, "RPAREN"}, {TOK_QMARK_LPAREN, "QMARK_LPAREN"},
+    {TOK_BANG_LPAREN, "BANG_LPAREN"}, {TOK_LBRACKET, "LBRACKET"}, {TOK_RBRACKET, "RBRACKET"},
+    {TOK_LBRACE, "LBRACE"}, {TOK_RBRACE, "RBRACE"}, {TOK_QMARK_LBRACE, "QMARK_LBRACE"},
+    {TOK_BANG_LBRACE, "BANG_LBRACE"}, {TOK_ASTERISK, "ASTERISK"}, {TOK_PLUS, "PLUS"},
+    {TOK_QMARK, "QMARK"}, {TOK_COMMA, "COMMA"}, {TOK_COLON, "COLON"}, {TOK_SEMICOLON, "SEMICOLON"},
+    {TOK_VBAR, "VBAR"}, {TOK_DOUBLE_VBAR, "DOUBLE_VBAR"}, {TOK_ASSIGN, "ASSIGN"}, {TOK_IF, "IF"},
+    {TOK_THEN, "THEN"}, {TOK_ELSE, "ELSE"}, {TOK_LET, "LET"}, {TOK_WORD, "WORD"},
+    {TOK_NUMWORD, "NUMWORD"}, {TOK_OP, "OP"}, {TOK_LIT_STR, "STR"}, {TOK_LIT_INT, "INT"},
+    {TOK_DEBUG, "DEBUG"}, {TOK_EOF, "EOF"},
+  };
+  size_t len = k.query.size ();
+  char *buf = (char *) malloc (len ? len : 1);
+  memcpy (buf, k.query.data (), len);
+  yyscan_t sc;
+  if (yylex_init (&sc) != 0)
+    return "{\"crash\":\"yylex_init\"}";
+  yy_scan_bytes (buf, len, sc);
+  std::string toks, err;
+  bool first = true;
+  try
+    {
+      for (size_t n = 0; n < 100000; ++n)
+	{
+	  YYSTYPE val;
+	  memset (&val, 0, sizeof val);
+	  int tk = yylex (&val, sc);
+	  auto it = names.find (tk);
+	  std::string item = std::string ("[") + jstr (it == names.end () ? "?" : it->second);
+	  if (tk == TOK_WORD || tk == TOK_NUMWORD || tk == TOK_OP || tk == TOK_LIT_INT)
+	    item += "," + jstr (hex (std::string (val.s.buf, val.s.len)));
+	  else if (tk == TOK_LBRACKET)
+	    item += "," + std::to_string (val.u);
+	  else if (tk == TOK_LIT_STR)
+	    {
+	      item += "," + jstr (sx_tree (*val.t));
+	      delete val.t;
+	    }
+	  item += "]";
+	  toks += std::string (first ? "" : ",") + item;
+	  first = false;
+	  if (tk == TOK_EOF || tk <= 0)
+	    break;
+	}
+    }
+  catch (std::runtime_error const &e)
+    {
+      err = e.what ();
+    }
+  catch (...)
+    {
+      err = "unknown exception";
+    }
+  yylex_destroy (sc);
+  free (buf);
+  return "{\"tokens\":[" + toks + "],\"lex_error\":" + (err.empty () ? "null" : jstr (err)) + "}";
+}
+
 static std::string
 do_case (kase const &k)
 {
+  if (k.mode == "lex")
+    return run_lex (k);
   if (k.mode == "tree")
     return run_tree (k);
   if (k.mode == "hist")
